@@ -49,5 +49,5 @@ InvTranslation ==
      LET c == WithNum(cb, k, VAdd(cb.atoms[k].num, VScale(DD, t)))
      IN CloseOrdered(DD, ca, c) = CloseOrdered(DD, ca, cb) /\ CloseAnyOrder(DD, ca, c) = CloseAnyOrder(DD, ca, cb)
 Emit == PrintT(ToString(<<"ISC", ca, cb, CloseOrdered(DD, ca, cb), CloseAnyOrder(DD, ca, cb),
-                          IF CloseAnyOrder(DD, ca, cb) THEN OrderOf(DD, ca, cb) ELSE <<>>>>))
+                          IF CloseAnyOrder(DD, ca, cb) THEN OrderOf(DD, ca, cb) ELSE <<>>, ConvertReq(DD, ca, cb)>>))
 =============================================================================
